@@ -47,8 +47,13 @@ func (v *variable) String() string {
 type variables []*variable
 
 func (p variables) Len() int           { return len(p) }
-func (p variables) Less(i, j int) bool { return p[i].name < p[j].name }
+func (p variables) Less(i, j int) bool { return variableKey(p[i].name) < variableKey(p[j].name) }
 func (p variables) Swap(i, j int)      { p[i], p[j] = p[j], p[i] }
+
+// variableKey orders variable patterns for the search: a pattern that spells
+// a segment literally is tried before one that covers it with a wildcard
+// ('*' sorts behind every literal character), "*" before "**".
+func variableKey(name string) string { return strings.ReplaceAll(name, "*", "\x7f") }
 
 type path struct {
 	segments  map[string]*path   // maps constants to path routes
